@@ -292,7 +292,14 @@ fn cli_sample(rt: &Runtime, rep: &mut StageReport) -> Vec<(serde_json::Value, St
             let fault = if attempts % 2 == 0 { Fault::Truncate((rng.next() % len as u64) as usize) } else { Fault::Flip((rng.next() % (len as u64 * 8)) as usize) };
             let dir = ctx.case_dir();
             let data = apply(&f.bytes, fault);
-            let p = dir.join("d.skf");
+            // every other damaged file carries no .skf suffix and has an intact sibling "<name>.skf"
+            // (the layout `ska weed set.skf w.fa -o set` leaves behind): it must still be rejected
+            let bare = attempts % 4 < 2;
+            let dname = if bare { "d" } else { "d.skf" };
+            if bare {
+                std::fs::write(dir.join("d.skf"), &f.bytes).unwrap();
+            }
+            let p = dir.join(dname);
             std::fs::write(&p, &data).unwrap();
             if load_sig(&cli::p(&p)).is_some() {
                 ctx.done(&dir);
@@ -301,15 +308,15 @@ fn cli_sample(rt: &Runtime, rep: &mut StageReport) -> Vec<(serde_json::Value, St
             std::fs::write(dir.join("good.skf"), &f.bytes).unwrap();
             cli::write_fasta_auto(&dir.join("ref.fa"), &[crate::gen::filler(63, 1)], None);
             let cmds: Vec<Vec<&str>> = vec![
-                vec!["nk", "--full-info", "d.skf"],
-                vec!["align", "d.skf", "-o", "out_aln"],
-                vec!["map", "ref.fa", "d.skf", "-o", "out_map"],
-                vec!["distance", "d.skf", "-o", "out_dist"],
-                vec!["merge", "d.skf", "good.skf", "-o", "out_m1"],
-                vec!["merge", "good.skf", "d.skf", "-o", "out_m2"],
-                vec!["delete", "-s", "d.skf", "smp0"],
-                vec!["weed", "d.skf", "ref.fa"],
-                vec!["lo", "d.skf", "out_lo"],
+                vec!["nk", "--full-info", dname],
+                vec!["align", dname, "-o", "out_aln"],
+                vec!["map", "ref.fa", dname, "-o", "out_map"],
+                vec!["distance", dname, "-o", "out_dist"],
+                vec!["merge", dname, "good.skf", "-o", "out_m1"],
+                vec!["merge", "good.skf", dname, "-o", "out_m2"],
+                vec!["delete", "-s", dname, "-o", "out_del", "smp0"],
+                vec!["weed", dname, "ref.fa", "-o", "out_weed.skf"],
+                vec!["lo", dname, "out_lo"],
             ];
             for cmd in cmds {
                 let o = run_ska_env(&ctx, &dir, &cmd, &[]);
@@ -322,7 +329,7 @@ fn cli_sample(rt: &Runtime, rep: &mut StageReport) -> Vec<(serde_json::Value, St
                     problem = Some("exit status 0".to_string());
                 } else if std::fs::read(&p).ok().as_deref() != Some(&data[..]) {
                     problem = Some("the damaged input file was modified".to_string());
-                } else if let Some(x) = ["out_aln", "out_map", "out_dist", "out_m1.skf", "out_m2.skf", "out_lo_snps.fas", "out_lo_indels.vcf"].iter().find(|x| {
+                } else if let Some(x) = ["out_aln", "out_map", "out_dist", "out_m1.skf", "out_m2.skf", "out_del.skf", "out_weed.skf", "out_lo_snps.fas", "out_lo_indels.vcf"].iter().find(|x| {
                     let q = dir.join(x);
                     q.exists() && std::fs::metadata(&q).map(|m| m.len() > 0).unwrap_or(false)
                 }) {
@@ -356,7 +363,7 @@ fn stages(_tier: Tier) -> Vec<Box<dyn Stage>> {
         ),
         enum_stage(
             "cli",
-            "sample of damaged files that the loader rejects, each through nk, align, map, distance, merge (as first and as second input), delete (in place), weed (in place), lo: non-zero exit, damaged input byte-identical afterwards, no non-empty output file",
+            "sample of damaged files that the loader rejects, each (half of them named without the .skf suffix next to an intact <name>.skf) through nk, align, map, distance, merge (as first and as second input), delete, weed, lo: non-zero exit, damaged input byte-identical afterwards, no non-empty output file",
             cli_sample,
         ),
     ]
